@@ -304,8 +304,9 @@ def merge_tie(ctx, npays, ncases):
 # ---------------------------------------------------------------------------------------------------------
 TAG_RECURSIVE = 228          # only used to decide how to PRINT a message (ints vs bytes); the tags themselves are
                              # compared against the generated constants inside the extracted model
-COLL_KIND = {"MPI_Allgather": 1, "MPI_Allgatherv": 2, "MPI_Alltoall": 3, "MPI_Reduce_scatter_block": 4}
-COSIM_TYPES = [0, 1, 2, 3, 4, 5, 6]
+COLL_KIND = {"MPI_Allgather": 1, "MPI_Allgatherv": 2, "MPI_Alltoall": 3, "MPI_Reduce_scatter_block": 4, "MPI_Allreduce": 10}
+TAG_RANGES = 224
+COSIM_TYPES = [0, 1, 2, 3, 4, 5, 6, 7]
 
 
 def _npay(sz):
@@ -386,11 +387,15 @@ def cosim_line(case, run, q, trace_by_rank, accum_targets):
         if e[0] == "S":
             unit = 4 if e[2] >= TAG_RECURSIVE else 1
             data = _mask_records(e[3], npay, sz) if e[2] >= TAG_RECURSIVE + 32 else e[3]
+            if e[2] == TAG_RANGES and data[:4] == b"\0\0\0\0":
+                data = bytes(len(data))          # nothing behind a 0 flag is initialised by the code
             evs.append("S %x %x %s" % (e[1], e[2], mpitrace.hexints(data, unit, signed=(unit == 4))))
         elif e[0] == "R":
             unit = 4 if e[2] >= TAG_RECURSIVE else 1
             data = e[4] or b""
             data = _mask_records(data, npay, sz) if e[2] >= TAG_RECURSIVE + 32 else data
+            if e[2] == TAG_RANGES and data[:4] == b"\0\0\0\0":
+                data = bytes(len(data))
             evs.append("R %s %x %x %s" % (("-1" if e[1] < 0 else "%x" % e[1]), e[2], e[3] if e[3] is not None else 0, mpitrace.hexints(data, unit, signed=(unit == 4))))
         elif e[0] == "C":
             kind = COLL_KIND.get(e[1])
@@ -415,7 +420,7 @@ def cosim_line(case, run, q, trace_by_rank, accum_targets):
     if haspay and R:
         items = "/".join(",".join("%x" % pay_byte(0, q, r, k) for k in range(sz)) for r in R)
     rs = ",".join("%x" % r for r in R) if R else "-"
-    return "prog %x %x %x %x %x %x %d %d %x %d %s %s | %s" % (c.type, P, q, c.ntop, c.nint, c.nbot, 1 if c.sorted else 0, haspay, sz, eager, rs, items, " ; ".join(evs))
+    return "prog %x %x %x %x %x %x %d %d %x %d %s %s | %s" % (c.type, P, q, (c.nranges if c.type == 7 else c.ntop), c.nint, c.nbot, 1 if c.sorted else 0, haspay, sz, eager, rs, items, " ; ".join(evs))
 
 
 def gen_cosim_cases(ctx, paymodes, n):
